@@ -175,8 +175,8 @@ fn main() {
         match kind {
             "diff" => {
                 let reps = match (thorough, n) {
-                    (false, 0..=6) => 12,
-                    (false, _) => 3,
+                    (false, 0..=6) => 24,
+                    (false, _) => 8,
                     (true, 0..=6) => 2400,
                     (true, _) => 400,
                 };
